@@ -81,6 +81,21 @@ def real_cli():
                    force_down=fd, subprocess=True)
 
 
+def longest_names():
+    """Seeds with so many digits that the generated file name is 249-255 characters long (255 is the usual
+    limit for one path component): accepted parameters, so the file must be written and load."""
+    base = len("robot__w2_l2_r6_rb10_lb10_tb10_lt30.py")
+    try:
+        name_max = os.pathconf(os.path.join(boards.scratch_dir(), "inputs"), "PC_NAME_MAX")
+    except (OSError, ValueError, AttributeError):
+        name_max = 255
+    name_max = min(int(name_max), 255)
+    for total in (name_max - 6, name_max - 3, name_max - 2, name_max - 1, name_max):
+        digits = total - base
+        yield dict(kind="cli", seed=int("7" + "3" * (digits - 1)), width=2, length=2, rb=0.1, lb=0.1, tb=0.1, lt=0.3,
+                   max_reward=6, force_down=False, long_name=total)
+
+
 def odd_spellings():
     """The same accepted values written the way a shell script or a user may write them (surrounding blanks,
     a trailing carriage return from a CRLF script, a plus sign, leading zeros, exponent notation): the file
@@ -107,7 +122,9 @@ def odd_spellings():
 
 def phases(tier):
     side = 6 if tier == "quick" else 8
-    return [Phase("odd-argument-spellings", enum=odd_spellings,
+    return [Phase("longest-file-names", enum=longest_names,
+                  note="seeds whose file name is 249-255 characters long"),
+            Phase("odd-argument-spellings", enum=odd_spellings,
                   note="same values, unusual but accepted spellings: output must equal the canonical run byte for byte"),
             Phase("real-command-line", enum=real_cli,
                   note="python roberta_generator.py ... as a subprocess; bytes compared with the in-process run"),Phase("tall-wide-boards", enum=shaped(tier), note="structural clauses on tall / wide / large boards"),
